@@ -93,6 +93,49 @@ CLAIMS["C16"] = dict(
          "incremental codecs (fold law sampled, not proved; UTF-8 is proved over Lean core's definitions).",
     technique="Lean 4 proofs over pure functional models + exhaustive/random differential testing")
 
+CLAIMS["C20"] = dict(
+    text="14 Lean theorems over every reachable state of an LTS of AsyncLRUCacheWrapper.__call__ (per-key "
+         "locks, ordered dict with placeholders, counters, ttl clock; wrapped function, cancellations and "
+         "time as environment events): single flight per key, the in-flight placeholder is never lost, "
+         "retained results <= maxsize and currsize exact, calls for different keys never wait on each other, "
+         "no dictionary lookup/lock operation of the code can fail (no internal error), returned values were "
+         "produced for an equal key and hits serve the currently retained unexpired value, eviction removes "
+         "the least recently used completed entry, callers see only their own execution's exception. Tied to "
+         "the code by segment-level trace validation (all completion orders of gated wrapped calls, "
+         "cancellations, ttl ticks) and a reference-LRU oracle.",
+    design="5/C20",
+    note=BASE_NOTE + "Modelled, not verified: asyncio Task/Future wake-up and cancellation (fc/mc/sc "
+         "environment events), RunVar/WeakKeyDictionary plumbing, key construction (typed, kwargs), "
+         "cache_clear, a wrapped function that never suspends. Single flight is claimed for maxsize != 0.",
+    technique="Lean 4 invariant proof over an LTS + trace validation against the real code")
+
+CLAIMS["C04"].update(
+    category="proof",
+    text="24 Lean theorems, for ALL states of the kernel model (not only reachable ones): "
+         "_effectively_cancelled equals its declarative reading (first cancelled scope on the chain before "
+         "any shield), shields block, monotonicity; _parent_cancellation_is_visible characterised; "
+         "CancelScope.__exit__ swallows / re-raises the remainder / passes exactly according to "
+         "(cancel_called, parent visibility, AnyIO-cancellation leaves), cancelled_caught is set exactly by "
+         "an absorbing exit, other exceptions and the non-cancellation leaves of groups always pass, the "
+         "exit restores the task's scope pointer and removes the scope's timer. The statement that a "
+         "delivery only hits tasks whose chain is effectively cancelled (C04_deliver_sound, needs the "
+         "reachability invariant WF) is being proved; until then that clause rests on the trace validation "
+         "of every delivery against the model and on the oracle's reference semantics.",
+    technique="Lean 4 proofs about the kernel model's CancelScope functions + trace validation + reference oracle")
+CLAIMS["C06"].update(
+    category="proof",
+    text="21 Lean theorems for ALL states of the kernel model: current_effective_deadline equals the "
+         "declarative spec (min of the deadlines up to and including the nearest shield, -inf iff the walk "
+         "meets a cancelled scope first), _timeout arms a timer exactly at the deadline or cancels at once "
+         "when it has passed (also on entry), the deadline setter re-arms without stale timers, a timer "
+         "callback cancels iff now >= deadline (never early), exit removes the timer, fail_at raises "
+         "TimeoutError iff the scope absorbed a cancellation and the deadline has passed and never replaces a "
+         "propagating exception. The invariant that every live timer is recorded by the scope's flag "
+         "(hypothesis hrec of three theorems) and 'never missed' over cycles are trace-validated (virtual "
+         "clock, every timer handle replayed) and checked by the deadline oracle until the reachability "
+         "proof lands.",
+    technique="Lean 4 proofs about the kernel model's deadline functions + discrete-event trace validation")
+
 PENDING = {
 }
 
